@@ -1,4 +1,6 @@
+import Liquid.Std
 import Proofs.PostLemmas
+import Proofs.RunLemmas
 /-!
 # C12 — assign/capture bind for the rest of the render; loop variables are restored
 -/
@@ -142,3 +144,225 @@ theorem include_sees_vars (c : RCtx) (line : Nat) (args : Bytes) (s : RS) (e : E
   funext r
   obtain ⟨st, out⟩ := r
   cases st <;> rfl
+
+/-! ## Capture equivalence -/
+
+/-- printing a variable that holds captured text `out` is one write of `out` -/
+theorem print_str_var (c : RCtx) (hO : ∀ b, c.O.chunks (.str b) = .ok [b]) (line : Nat) (x out : Bytes) (s : RS)
+    (hx : s.env.get x = .str out) :
+    (renderList c [.obj line (.var x)] s).runPure =
+      (s.tw.buf, .ok (.done, { env := s.env,
+                               tw := { buf := if s.tw.trim then trimLeftSpace out else out, trim := false } })) := by
+  have hev : evaluate c.P s.env (.var x) = .ok (.str out) := by
+    simp only [evaluate, eval, hx]; rfl
+  simp only [renderList, renderNode, wrapFailAt, M.mapFail, bind, M.bind, M.getEnv, Prog.bind, hev,
+    M.ofRes, pure, M.pure]
+  split
+  · next h => simp [GoVal.isNil] at h
+  simp only [hO, M.bind, M.pure, Prog.bind, writeAllM, bind, pure]
+  unfold writeM
+  simp only
+  split
+  · next hb =>
+    have : s.tw.buf = [] := by simpa using hb
+    simp only [Prog.bind, Prog.mapFail, Prog.runPure, this, M.pure]
+  · simp only [Prog.bind, Prog.mapFail, Prog.runPure, List.append_nil, M.pure]
+
+/-- **C12 (capture_equiv).** `{% capture x %}BODY{% endcapture %}{{ x }}` renders what `BODY`
+    renders in place, and leaves the variables as `BODY` leaves them, plus `x`.
+
+    Stated on compiled nodes, for every context whose include handler renders into its own buffer
+    (`IncQuiet`; the engine's does, `incQuiet_mkCtx`) and whose output layer prints a string as one
+    write of its bytes (`hO`; the standard one does, `stdOut_str`): if the block body `BODY`, rendered
+    in place from state `s` on a fault-free writer, ends normally having put the bytes `R` through
+    the trim writer and leaving the state `s'`, then the capture-and-print sequence from the same
+    state also ends normally, the bytes it has put through plus the text it leaves pending are
+    exactly `R` (`R = s.tw.buf ++ out`, where `s.tw.buf` is the text that was pending before and
+    `out` the captured text, now pending), and its variables are those of `s'` with `x` bound to
+    `out`.
+
+    Side conditions (both hold at the start of a render, where the trim writer is empty:
+    `capture_equiv_root` has none):
+    * `htrim`: no `-%}` is waiting to trim what comes next. In place it trims the first *write* of
+      the body only (and an all-blank first write uses it up), after the capture it trims the whole
+      captured text: `capture_needs_flag_clear` is a body where the two differ.
+    * `hbuf`: the pending text does not end in white space. A body starting with `{%-` trims the
+      pending text in place, but inside the capture it finds an empty buffer:
+      `capture_needs_no_trailing_space`.
+    What is *not* claimed: that what follows sees the same trim-writer state. After the in-place
+    body the flag of a trailing `-%}` is still set and only the last written chunk can be trimmed
+    by a following `{%-`; after capture-and-print the flag is clear and the whole text is one
+    chunk (`capture_trailing_trim_differs`). -/
+theorem capture_equiv (c : RCtx) (hinc : IncQuiet c) (hO : ∀ b, c.O.chunks (.str b) = .ok [b])
+    (l1 l2 : Nat) (x : Bytes) (body : List Node) (s s' : RS) (R : Bytes)
+    (htrim : s.tw.trim = false) (hbuf : trimRightSpace s.tw.buf = s.tw.buf)
+    (hbody : (renderBlockBody c body s).runPure = (R, .ok (.done, s'))) :
+    ∃ out, R = s.tw.buf ++ out ∧
+      (renderList c [.capture l1 x body, .obj l2 (.var x)] s).runPure =
+        (s.tw.buf, .ok (.done, { env := s'.env.set x (.str out), tw := { buf := out, trim := false } })) := by
+  obtain ⟨env, tw⟩ := s
+  obtain ⟨B, t⟩ := tw
+  simp only at htrim hbuf
+  subst htrim
+  obtain ⟨ops, o, ht⟩ := traced_renderList c hinc body env
+  -- the body ends normally, so its trace ends with `done`
+  have hdone : ∃ env', o = .ok .done env' := by
+    cases o with
+    | ok st env' =>
+      cases st with
+      | done => exact ⟨env', rfl⟩
+      | brk e =>
+        have := tracedAt_blockBody_other c body env ops _ ht (by intro _ h; cases h) ⟨B, false⟩
+        rw [hbody] at this; simp [EOut.withTw] at this
+      | cont e =>
+        have := tracedAt_blockBody_other c body env ops _ ht (by intro _ h; cases h) ⟨B, false⟩
+        rw [hbody] at this; simp [EOut.withTw] at this
+    | err e =>
+      have := tracedAt_blockBody_other c body env ops _ ht (by intro _ h; cases h) ⟨B, false⟩
+      rw [hbody] at this; simp [EOut.withTw] at this
+    | panic w =>
+      have := tracedAt_blockBody_other c body env ops _ ht (by intro _ h; cases h) ⟨B, false⟩
+      rw [hbody] at this; simp [EOut.withTw] at this
+    | unmodelled w =>
+      have := tracedAt_blockBody_other c body env ops _ ht (by intro _ h; cases h) ⟨B, false⟩
+      rw [hbody] at this; simp [EOut.withTw] at this
+  obtain ⟨env', rfl⟩ := hdone
+  -- in place: everything the operations produce from the pending text `B`
+  have hplace := tracedAt_blockBody_done c body env env' ops ht ⟨B, false⟩
+  rw [hbody, twTotal_flush, tw_run_flush_state] at hplace
+  simp only [EOut.withTw, Prod.mk.injEq, Prog.Outcome.ok.injEq] at hplace
+  obtain ⟨hR, -, hs'⟩ := hplace
+  have hpend := (twTotal_pending ops B false hbuf).1
+  refine ⟨twTotal {} ops, ?_, ?_⟩
+  · rw [hR, hpend]
+  · -- captured: the same operations from an empty trim writer, then one write of the text
+    have hcap := captureM_of_traced (renderList c body) env env' ops .done ht ⟨B, false⟩
+    rw [capture_seq c l1 x body [.obj l2 (.var x)] _ _ _ hcap]
+    rw [print_str_var c hO l2 x (twTotal {} ops) _ (Env.get_set_same _ _ _)]
+    simp only [hs', Bool.false_eq_true, if_false]
+
+/-- the standard output layer prints a string as one write of its bytes (hypothesis `hO`) -/
+theorem stdOut_str (b : Bytes) : stdOut.chunks (.str b) = .ok [b] := by
+  simp [stdOut, stdChunks, GoVal.toLiquid, writeChunksL, writeObjectL, sprint, Res.bind]
+
+/-- **C12 (capture_equiv, whole template).** At the start of a render nothing is pending and no
+    trim is armed, so no side condition remains: for every body that renders normally as a
+    template of its own, `{% capture x %}BODY{% endcapture %}{{ x }}` renders exactly the same
+    bytes, and ends normally too. -/
+theorem capture_equiv_root (c : RCtx) (hinc : IncQuiet c) (hO : ∀ b, c.O.chunks (.str b) = .ok [b])
+    (l1 l2 : Nat) (x : Bytes) (body : List Node) (env : Env) (out : Bytes)
+    (hbody : (renderRoot c body env).runPure = (out, .ok .done)) :
+    (renderRoot c [.capture l1 x body, .obj l2 (.var x)] env).runPure = (out, .ok .done) := by
+  rw [renderRoot_eq_blockBody, Prog.runPure_bind] at hbody
+  rcases hb : (renderBlockBody c body ⟨env, {}⟩).runPure with ⟨R, o⟩
+  rw [hb] at hbody
+  cases o with
+  | ok r =>
+    obtain ⟨st, s'⟩ := r
+    simp only [Prog.runPure, List.append_nil, Prod.mk.injEq, Prog.Outcome.ok.injEq] at hbody
+    obtain ⟨rfl, rfl⟩ := hbody
+    obtain ⟨out', hR, hrun⟩ := capture_equiv c hinc hO l1 l2 x body ⟨env, {}⟩ s' R rfl rfl hb
+    simp only [List.nil_append] at hR
+    subst hR
+    unfold renderRoot
+    rw [Prog.runPure_bind, hrun]
+    simp only [wrapFailAt, M.mapFail, List.nil_append]
+    unfold flushM
+    simp only
+    split
+    · next he =>
+      have : R = [] := by simpa using he
+      simp [Prog.mapFail, Prog.bind, Prog.runPure, this]
+    · simp [Prog.mapFail, Prog.bind, Prog.runPure]
+  | err e => simp at hbody
+  | panic w => simp at hbody
+  | unmodelled w => simp at hbody
+
+/-! ### Why the side conditions of `capture_equiv` are needed: counterexamples
+
+A minimal context: no filters, strings print as themselves, no include. -/
+
+def demoPrims : Prims :=
+  { equal := fun _ _ => .ok false, less := fun _ _ => .ok false, contains := fun _ _ => .ok false,
+    equalFn := fun _ _ => .ok false, applyFilter := fun _ v _ => .ok v, hasFilter := fun _ => false }
+def demoOut : OutPrims := { chunks := fun v => match v with | .str b => .ok [b] | _ => .ok [] }
+def demoCtx : RCtx := { P := demoPrims, O := demoOut, cfg := {}, inc := fun _ _ _ => .unmodelled "no include" }
+
+theorem demoCtx_quiet : IncQuiet demoCtx := fun _ _ _ => trivial
+theorem demoOut_str (b : Bytes) : demoCtx.O.chunks (.str b) = .ok [b] := rfl
+
+/-- Non-vacuity of `capture_equiv`: pending text `x`, body `a {%- if … %}`-like
+    `[text "a ", trim-left, text "b"]`: in place the writer gets `xab`; the capture-and-print gets `x`
+    and holds `ab` — and `x` is bound to `ab`. -/
+example :
+    ∃ out, [120, 97, 98] = [120] ++ out ∧
+      (renderList demoCtx [.capture 1 [118] [.text 1 [97, 32], .trim true, .text 1 [98]], .obj 2 (.var [118])]
+        ⟨[], { buf := [120], trim := false }⟩).runPure =
+      ([120], .ok (.done, { env := Env.set [] [118] (.str out), tw := { buf := out, trim := false } })) :=
+  capture_equiv demoCtx demoCtx_quiet demoOut_str 1 2 [118] [.text 1 [97, 32], .trim true, .text 1 [98]]
+    ⟨[], { buf := [120], trim := false }⟩ ⟨[], {}⟩ [120, 97, 98] rfl rfl (by
+      simp [renderBlockBody, renderList, renderNode, wrapFailAt, M.mapFail, M.bind, M.pure, writeM, trimLeftM,
+        flushM, Prog.bind, Prog.mapFail, Prog.runPure, bind, pure, demoCtx]
+      rfl)
+
+/-- **Counterexample (side condition `hbuf`).** Pending text `a␠` (trailing blank), body
+    `{%- … %}b` = `[trim-left, text "b"]`. In place the trim-left bites into the pending text: the
+    writer gets `ab`. Captured, it finds an empty buffer: capture-and-print gives `a␠` then `b`. -/
+theorem capture_needs_no_trailing_space :
+    (renderBlockBody demoCtx [.trim true, .text 1 [98]] ⟨[], { buf := [97, 32], trim := false }⟩).runPure =
+      ([97, 98], .ok (.done, ⟨[], {}⟩)) ∧
+    (renderList demoCtx [.capture 1 [120] [.trim true, .text 1 [98]], .obj 1 (.var [120])]
+        ⟨[], { buf := [97, 32], trim := false }⟩).runPure =
+      ([97, 32], .ok (.done, ⟨[([120], .str [98])], { buf := [98], trim := false }⟩)) := by
+  constructor
+  · simp [renderBlockBody, renderList, renderNode, wrapFailAt, M.mapFail, M.bind, M.pure, writeM, trimLeftM,
+      flushM, Prog.bind, Prog.mapFail, Prog.runPure, bind, pure, demoCtx]
+    rfl
+  · simp [renderList, renderNode, wrapFailAt, wrapAt, M.mapFail, M.bind, M.pure, writeM, trimLeftM,
+      flushM, captureM, Prog.bind, Prog.mapFail, Prog.runPure, bind, pure, demoCtx, M.setVar, M.getEnv, M.ofRes, evaluate,
+      eval, Env.set, Env.get, GoVal.toLiquid, GoVal.unwrap, GoVal.isNil, demoOut, writeAllM, Status.wrap]
+    rfl
+
+/-- **Counterexample (side condition `htrim`).** A `-%}` is armed, body = two writes `␠` and `␠b`
+    (e.g. a blank text and an object printing `" b"`). In place the flag trims the first write
+    only (to nothing): the writer gets `␠b`. Captured, the text is `␠␠b`, and printing it with the
+    flag armed trims all of its leading blanks: `b`. -/
+theorem capture_needs_flag_clear :
+    (renderBlockBody demoCtx [.text 1 [32], .text 1 [32, 98]] ⟨[], { buf := [], trim := true }⟩).runPure =
+      ([32, 98], .ok (.done, ⟨[], {}⟩)) ∧
+    (renderList demoCtx [.capture 1 [120] [.text 1 [32], .text 1 [32, 98]], .obj 1 (.var [120])]
+        ⟨[], { buf := [], trim := true }⟩).runPure =
+      ([], .ok (.done, ⟨[([120], .str [32, 32, 98])], { buf := [98], trim := false }⟩)) := by
+  constructor
+  · simp [renderBlockBody, renderList, renderNode, wrapFailAt, M.mapFail, M.bind, M.pure, writeM,
+      flushM, Prog.bind, Prog.mapFail, Prog.runPure, bind, pure, demoCtx]
+    rfl
+  · simp [renderList, renderNode, wrapFailAt, wrapAt, M.mapFail, M.bind, M.pure, writeM,
+      flushM, captureM, Prog.bind, Prog.mapFail, Prog.runPure, bind, pure, demoCtx, M.setVar, M.getEnv, M.ofRes, evaluate,
+      eval, Env.set, Env.get, GoVal.toLiquid, GoVal.unwrap, GoVal.isNil, demoOut, writeAllM, Status.wrap]
+    rfl
+
+/-- **Counterexample (what follows).** The equivalence is about the bytes of the fragment, not
+    about the trim-writer state handed to what follows. Body `a{{ … -}}` = `[text "a", trim-right]`
+    followed by the text `␠b`: in place the trailing `-}}` trims the following text (`ab`); after
+    capture-and-print the flag is gone (`a␠b`). -/
+theorem capture_trailing_trim_differs :
+    (renderRoot demoCtx [.text 1 [97], .trim false, .text 1 [32, 98]] []).runPure = ([97, 98], .ok .done) ∧
+    (renderRoot demoCtx [.capture 1 [120] [.text 1 [97], .trim false], .obj 1 (.var [120]), .text 1 [32, 98]] []).runPure =
+      ([97, 32, 98], .ok .done) := by
+  have h : trimLeftSpace [32, 98] = [98] := rfl
+  constructor
+  · simp [renderRoot, renderList, renderNode, wrapFailAt, M.mapFail, M.bind, M.pure, writeM, trimRightM,
+      flushM, Prog.bind, Prog.mapFail, Prog.runPure, bind, pure, demoCtx, h]
+  · simp [renderRoot, renderList, renderNode, wrapFailAt, wrapAt, M.mapFail, M.bind, M.pure, writeM, trimRightM,
+      flushM, captureM, Prog.bind, Prog.mapFail, Prog.runPure, bind, pure, demoCtx, M.setVar, M.getEnv, M.ofRes, evaluate,
+      eval, Env.set, Env.get, GoVal.toLiquid, GoVal.unwrap, GoVal.isNil, demoOut, writeAllM, Status.wrap]
+
+/-- Non-vacuity of `capture_equiv_root`: the body `a {%- … %}b` renders `ab`, and so does its capture-and-print -/
+example :
+    (renderRoot demoCtx [.capture 1 [118] [.text 1 [97, 32], .trim true, .text 1 [98]], .obj 2 (.var [118])] []).runPure =
+      ([97, 98], .ok .done) :=
+  capture_equiv_root demoCtx demoCtx_quiet demoOut_str 1 2 [118] [.text 1 [97, 32], .trim true, .text 1 [98]] [] [97, 98] (by
+    simp [renderRoot, renderList, renderNode, wrapFailAt, M.mapFail, M.bind, M.pure, writeM, trimLeftM,
+      flushM, Prog.bind, Prog.mapFail, Prog.runPure, bind, pure, demoCtx]
+    rfl)
